@@ -125,6 +125,8 @@ class FockSimulator(BuiltinSimulator):
         gates.PositionDisplacement: displacement,
         gates.MomentumDisplacement: displacement,
         gates.Squeezing2: linear,
+        gates.ControlledX: linear,
+        gates.ControlledZ: linear,
         gates.GaussianTransform: linear,
         measurements.ParticleNumberMeasurement: particle_number_measurement,
         measurements.ImperfectParticleNumberMeasurement: (
